@@ -190,6 +190,21 @@ def run(rep):
                 rep.check(found, "R04.e", rel, fname, f"{label}: division by {g} guarded",
                           f"no dominating `abs({g}) < EPS -> nan` guard on this path", line=p.line)
     rep.floor("score formulas compared", nform, 14)
+    # corr reads the nan-aware statistic of the members: a forecast with a valid observation and at least one valid member is part of the
+    # series the definition is evaluated on, so the shared row filter must keep it
+    from . import c03
+    ck_, tabs = c03.ensemble_filter_tables(mod)
+    cons = "corr: a forecast with a valid observation and some (not all) valid members is kept (its nan-mean / nan-median is defined)"
+    if not tabs:
+        rep.undecided("R04.a", rel, "__check_ensemble_data", cons, "no path returning row selections of obs and ens", line=ck_.lineno)
+    for to_, te_ in tabs:
+        key = tuple(sorted({('valid', 'obs'): True, ('any', 'ens'): True, ('all', 'ens'): False}.items()))
+        vo, ve = to_.get(key), te_.get(key)
+        if vo is None or ve is None:
+            rep.undecided("R04.a", rel, "__check_ensemble_data", cons, "row mask outside the valid / missing vocabulary", line=ck_.lineno)
+        else:
+            rep.check(vo and ve, "R04.a", rel, "__check_ensemble_data", cons,
+                      "the row mask is false for such a forecast: corr correlates a shorter series than the one its definition names", line=ck_.lineno, firm=True)
     # __nonulldata: one mask for both series
     nn = mod.funcs.get("__nonulldata")
     if nn is None:
